@@ -73,6 +73,8 @@ THEOREMS = [
     "MysticVerif.C11.impose_measure_applied_exact",
     "MysticVerif.C11.impose_measure_other_order_witness",
     "MysticVerif.C11.applied_weight_reweighted_by_older_round_witness",
+    "MysticVerif.C11.oldest_round_runs_last",
+    "MysticVerif.C11.oldest_round_pairs_equal",
 ]
 
 ERR = {"ValueError": "value", "TypeError": "type", "IndexError": "index"}
@@ -1936,7 +1938,7 @@ def witnesses():
 def main(tier, seed):
     t0 = time.time()
     proof = framework.proof_stage(PID, MODULE, THEOREMS, tier)
-    nshards, per, nsolver, nchain, napply, nmapply, nmsolver = (16, 1000, 24, 20, 600, 300, 12) if tier == "quick" else (
+    nshards, per, nsolver, nchain, napply, nmapply, nmsolver = (16, 1000, 24, 20, 600, 200, 10) if tier == "quick" else (
         64, 6000, 150, 120, 4000, 2000, 60)
     run = framework.run_shards("c11", "run_shard", PID, seed, nshards, per, tier,
                                extra={"nsolver": nsolver, "nchain": nchain, "napply": napply, "nmapply": nmapply,
